@@ -26,7 +26,8 @@ def run(tier):
     bins = rk.build_readers(variants)
     by_opts = rk.group_by_opts(bins, variants)
     rk.run_mc(chk, wd, by_opts, [("chars-f", "chars", 4 if quick else 5, [1, 2], "small", D),
-                                 ("tokens-f", "tokens", 3 if quick else 4, [2], "small", D)])
+                                 ("tokens-f", "tokens", 3 if quick else 4, [2], "small", D),
+                                 ("string-f", "string", 4 if quick else 5, [1], "small", D)])
     rng = random.Random(vlib.seed())
     lines = rg.gen_filtered(rng, D, 4000 if quick else 60000)
     lines += [dict(l, f=rg.rand_filter(rng)) for l in rg.gen_mutants(rng, D, 1500 if quick else 20000)]
